@@ -126,17 +126,25 @@ ImplStep(xs, q, early, bug) ==
       THEN [i |-> q.i + 1, dict |-> EmptyDict, hi |-> 257, saved |-> b, out |-> q.out \o EmitCodes(q.saved, q.hi, early, bug)]
       ELSE [i |-> q.i + 1, dict |-> Insert(q.dict, key, q.hi + 1), hi |-> q.hi + 1, saved |-> b,
             out |-> q.out \o EmitCodes(q.saved, q.hi, early, bug)]
-\* Close: the pending code, incHi, EOD with the code length then in force
-ImplClose(q, early, bug) ==
+\* Close: the pending code, then incHi (which may switch the code length or
+\* even send a clear code), then EOD with the code length then in force.
+\* inc = FALSE is the negative control "Close forgets incHi after the last
+\* code": EOD is written with the code length of the last data code.
+ImplCloseWith(q, early, bug, inc) ==
   IF q.saved = NoCode THEN Append(q.out, <<Eod, WidthFor(q.hi + bug, early)>>)
-  ELSE q.out \o EmitCodes(q.saved, q.hi, early, bug)
-             \o << <<Eod, WidthFor((IF Resets(q.hi, early) THEN 257 ELSE q.hi + 1) + bug, early)>> >>
+  ELSE IF inc
+    THEN q.out \o EmitCodes(q.saved, q.hi, early, bug)
+               \o << <<Eod, WidthFor((IF Resets(q.hi, early) THEN 257 ELSE q.hi + 1) + bug, early)>> >>
+    ELSE q.out \o << <<q.saved, WidthFor(q.hi + bug, early)>>, <<Eod, WidthFor(q.hi + bug, early)>> >>
+ImplClose(q, early, bug) == ImplCloseWith(q, early, bug, TRUE)
 RECURSIVE ImplSteps(_, _, _, _, _)   \* two levels of iteration: shallow evaluation stack
 ImplSteps(xs, q, n, early, bug) == IF n = 0 \/ q.i > Len(xs) THEN q ELSE ImplSteps(xs, ImplStep(xs, q, early, bug), n - 1, early, bug)
 RECURSIVE ImplLoop(_, _, _, _)
 ImplLoop(xs, q, early, bug) == IF q.i > Len(xs) THEN q ELSE ImplLoop(xs, ImplSteps(xs, q, 64, early, bug), early, bug)
-ImplCodes(xs, early, bug) ==
-  ImplClose(ImplLoop(xs, [i |-> 1, dict |-> ImplSt0.dict, hi |-> ImplSt0.hi, saved |-> ImplSt0.saved, out |-> ImplSt0.out], early, bug), early, bug)
+ImplFinal(xs, early, bug) ==
+  ImplLoop(xs, [i |-> 1, dict |-> ImplSt0.dict, hi |-> ImplSt0.hi, saved |-> ImplSt0.saved, out |-> ImplSt0.out], early, bug)
+ImplCodes(xs, early, bug) == ImplClose(ImplFinal(xs, early, bug), early, bug)
+ImplCodesNoIncHiAtClose(xs, early) == ImplCloseWith(ImplFinal(xs, early, 0), early, 0, FALSE)
 ImplEncode(xs, early) == PackCodes(ImplCodes(xs, early, 0))
 
 (* ---- another legal encoder: literals only, a clear code every n codes (so  *)
